@@ -401,3 +401,178 @@ Proof.
         destruct (rg_is TkColon t1); [|discriminate]. cbn [rgl_rootop_notype rgl_parser] in Eq. unfold rg_opt, rg_name, rg_sat in Eq.
         destruct ts1 as [|t2 ts2]; [discriminate|]. destruct (rg_is TkName t2); discriminate.
 Qed.
+
+(* ------------------------------------------------------------------ the `implements` part *)
+(* object_type_definition tests the token (kind and data) ... *)
+Lemma rl_sim_impl_opt_tok f :
+  rl_sim rl_any
+    (o <- p_peek_token ;;
+     match o with
+     | Some token => p_when (tkind_eqb (tok_kind token) TkName && p_str_eqb (tok_data token) pkw_implements)
+                       (g_implements_interfaces f)
+     | None => p_ret tt
+     end)
+    (rg_opt (rg_is_kw rg_s_implements) rg_implements).
+Proof.
+  pose proof (rl_sim_implements_interfaces f) as [Hg Hm]. split.
+  { apply rl_gen_bind; [split; [apply (a_peek_token _ CT_atoms)|apply (a_peek_token _ CX_atoms)]|].
+    intros [token|]; [|apply rl_gen_ret]. destruct (_ && _); cbn [p_when]; [exact Hg|apply rl_gen_ret]. }
+  intros s u s' E [Hinv Ha] Ht _. destruct (rl_inv_cur _ Hinv) as (t & Hc & Hi & _).
+  unfold p_bind in E. rewrite (peek_token_some t s Hc) in E.
+  pose proof (rl_peek_data_view _ _ pkw_implements Hinv Hc eq_refl) as Hv.
+  change (rg_is_kw pkw_implements) with (rg_is_kw rg_s_implements) in Hv.
+  assert (Hb : tkind_eqb (tok_kind t) TkName && p_str_eqb (tok_data t) pkw_implements
+               = rl_head_is (rg_is_kw rg_s_implements) (rl_sigs s)).
+  { rewrite Hv. destruct (rl_head_is (rg_is_kw rg_s_implements) (rl_sigs s)) eqn:Hh; [|apply andb_false_r].
+    rewrite andb_true_r. rewrite (rl_sigs_head _ _ Hinv Hc) in Hh. destruct (tkind_eqb (tok_kind t) TkEof); [discriminate|].
+    cbn [rl_head_is] in Hh. unfold rg_is_kw in Hh. cbn [fst] in Hh. apply andb_prop in Hh as [Hh _].
+    destruct (tok_kind t); try discriminate Hh; reflexivity. }
+  rewrite Hb in E. unfold rl_sound, rl_complete, rg_opt.
+  destruct (rl_sigs s) as [|t0 ts] eqn:Es; cbn [rl_head_is] in E.
+  - cbn [p_when] in E. injection E as _ <-. rewrite Es. split.
+    + intros _. split; [split; assumption|]. split; [exists []; reflexivity|reflexivity].
+    + intros _ r [= <-]. auto.
+  - destruct (rg_is_kw rg_s_implements t0) eqn:Hk; cbn [p_when] in E.
+    + assert (Hp : rg_starts (rg_is_kw rg_s_implements) (rl_sigs s)) by (rewrite Es; exact Hk).
+      destruct (Hm s u s' E (conj Hinv Ha) Ht Hp) as [Hs Hcm]. unfold rl_sound, rl_complete in *.
+      rewrite Es in Hs, Hcm. split; assumption.
+    + injection E as _ <-. rewrite Es. split.
+      * intros _. split; [split; assumption|]. split; [exists []; reflexivity|reflexivity].
+      * intros _ r [= <-]. auto.
+Qed.
+(* ... interface_type_definition and the extensions only its data *)
+Lemma rl_sim_impl_opt_data f :
+  rl_sim rl_any (i <- g_peek_data_is pkw_implements ;; p_when i (g_implements_interfaces f))
+    (rg_opt (rg_is_kw rg_s_implements) rg_implements).
+Proof.
+  apply (rl_sim_if_kw rl_any pkw_implements); [reflexivity|].
+  eapply rl_sim_weaken; [|apply rl_sim_implements_interfaces]. intros ts [_ H]. exact H.
+Qed.
+
+(* ------------------------------------------------------------------ definitions: the part after the keyword *)
+Lemma rl_sim_object_rest f :
+  rl_sim rl_any
+    (g_name_or_err ;;
+     o <- p_peek_token ;;
+     match o with
+     | Some token => p_when (tkind_eqb (tok_kind token) TkName && p_str_eqb (tok_data token) pkw_implements)
+                       (g_implements_interfaces f)
+     | None => p_ret tt
+     end ;;
+     g_if_peek TkAt (g_directives f GConst) ;; g_if_peek TkLCurly (g_fields_definition f))
+    (rg_seq rg_name (rgl_object_tail LP)).
+Proof.
+  unfold rgl_object_tail. apply rl_sim_bind; [apply rl_sim_name_or_err|intros _].
+  apply (rl_sim_fext rl_any
+    ((o <- p_peek_token ;;
+      match o with
+      | Some token => p_when (tkind_eqb (tok_kind token) TkName && p_str_eqb (tok_data token) pkw_implements)
+                        (g_implements_interfaces f)
+      | None => p_ret tt
+      end) ;;
+     g_if_peek TkAt (g_directives f GConst) ;; g_if_peek TkLCurly (g_fields_definition f))).
+  { intros s. apply p_bind_assoc. }
+  apply rl_sim_bind; [apply rl_sim_impl_opt_tok|intros _].
+  apply rl_sim_bind; [apply (rl_sim_directives_opt f GConst)|intros _].
+  apply rl_sim_if_peek; [discriminate|apply rl_sim_fields_definition].
+Qed.
+
+Lemma rl_sim_interface_rest f :
+  rl_sim rl_any
+    (g_name_or_err ;; i <- g_peek_data_is pkw_implements ;; p_when i (g_implements_interfaces f) ;;
+     g_if_peek TkAt (g_directives f GConst) ;; g_if_peek TkLCurly (g_fields_definition f))
+    (rg_seq rg_name (rgl_object_tail LP)).
+Proof.
+  unfold rgl_object_tail. apply rl_sim_bind; [apply rl_sim_name_or_err|intros _].
+  apply (rl_sim_fext rl_any ((i <- g_peek_data_is pkw_implements ;; p_when i (g_implements_interfaces f)) ;;
+           g_if_peek TkAt (g_directives f GConst) ;; g_if_peek TkLCurly (g_fields_definition f))).
+  { intros s. apply p_bind_assoc. }
+  apply rl_sim_bind; [apply rl_sim_impl_opt_data|intros _].
+  apply rl_sim_bind; [apply (rl_sim_directives_opt f GConst)|intros _].
+  apply rl_sim_if_peek; [discriminate|apply rl_sim_fields_definition].
+Qed.
+
+Lemma rl_sim_scalar_rest f :
+  rl_sim rl_any (g_name_or_err ;; g_if_peek TkAt (g_directives f GConst)) (rg_seq rg_name (rgl_scalar_tail LP)).
+Proof. apply rl_sim_bind; [apply rl_sim_name_or_err|intros _; apply (rl_sim_directives_opt f GConst)]. Qed.
+
+Lemma rl_sim_union_rest f :
+  rl_sim rl_any
+    (g_name_or_err ;; g_if_peek TkAt (g_directives f GConst) ;; g_if_peek TkEq (g_union_member_types f))
+    (rg_seq rg_name (rgl_union_tail LP)).
+Proof.
+  unfold rgl_union_tail. apply rl_sim_bind; [apply rl_sim_name_or_err|intros _].
+  apply rl_sim_bind; [apply (rl_sim_directives_opt f GConst)|intros _].
+  apply rl_sim_if_peek; [discriminate|apply rl_sim_union_member_types].
+Qed.
+Lemma rl_sim_enum_rest f :
+  rl_sim rl_any
+    (g_name_or_err ;; g_if_peek TkAt (g_directives f GConst) ;; g_if_peek TkLCurly (g_enum_values_definition f))
+    (rg_seq rg_name (rgl_enum_tail LP)).
+Proof.
+  unfold rgl_enum_tail. apply rl_sim_bind; [apply rl_sim_name_or_err|intros _].
+  apply rl_sim_bind; [apply (rl_sim_directives_opt f GConst)|intros _].
+  apply rl_sim_if_peek; [discriminate|apply rl_sim_enum_values_definition].
+Qed.
+Lemma rl_sim_input_rest f :
+  rl_sim rl_any
+    (g_name_or_err ;; g_if_peek TkAt (g_directives f GConst) ;; g_if_peek TkLCurly (g_input_fields_definition f))
+    (rg_seq rg_name (rgl_input_tail LP)).
+Proof.
+  unfold rgl_input_tail. apply rl_sim_bind; [apply rl_sim_name_or_err|intros _].
+  apply rl_sim_bind; [apply (rl_sim_directives_opt f GConst)|intros _].
+  apply rl_sim_if_peek; [discriminate|apply rl_sim_input_fields_definition].
+Qed.
+
+(* Description? <keyword> Name ... : the six named definitions *)
+Definition rgl_named_def (kw : str) (tail : rg_p) : rg_p :=
+  rg_seq rg_desc_opt (rg_seq (rg_sat (rg_is_kw kw)) (rg_seq rg_name tail)).
+
+Lemma rl_sim_object_type_definition f :
+  rl_sim (rl_desc_kw pkw_type) (g_object_type_definition f) (rgl_named_def pkw_type (rgl_object_tail LP)).
+Proof.
+  unfold g_object_type_definition, rgl_named_def. apply rl_sim_node.
+  apply rl_sim_desc_kw_rest; [reflexivity|apply rl_sim_object_rest].
+Qed.
+Lemma rl_sim_interface_type_definition f :
+  rl_sim (rl_desc_kw pkw_interface) (g_interface_type_definition f) (rgl_named_def pkw_interface (rgl_object_tail LP)).
+Proof.
+  unfold g_interface_type_definition, rgl_named_def. apply rl_sim_node.
+  apply rl_sim_desc_kw_rest; [reflexivity|apply rl_sim_interface_rest].
+Qed.
+Lemma rl_sim_scalar_type_definition f :
+  rl_sim (rl_desc_kw pkw_scalar) (g_scalar_type_definition f) (rgl_named_def pkw_scalar (rgl_scalar_tail LP)).
+Proof.
+  unfold g_scalar_type_definition, rgl_named_def. apply rl_sim_node.
+  apply rl_sim_desc_kw_rest; [reflexivity|apply rl_sim_scalar_rest].
+Qed.
+Lemma rl_sim_union_type_definition f :
+  rl_sim (rl_desc_kw pkw_union) (g_union_type_definition f) (rgl_named_def pkw_union (rgl_union_tail LP)).
+Proof.
+  unfold g_union_type_definition, rgl_named_def. apply rl_sim_node.
+  apply rl_sim_desc_kw_rest; [reflexivity|apply rl_sim_union_rest].
+Qed.
+Lemma rl_sim_enum_type_definition f :
+  rl_sim (rl_desc_kw pkw_enum) (g_enum_type_definition f) (rgl_named_def pkw_enum (rgl_enum_tail LP)).
+Proof.
+  unfold g_enum_type_definition, rgl_named_def. apply rl_sim_node.
+  apply rl_sim_desc_kw_rest; [reflexivity|apply rl_sim_enum_rest].
+Qed.
+Lemma rl_sim_input_object_type_definition f :
+  rl_sim (rl_desc_kw pkw_input) (g_input_object_type_definition f) (rgl_named_def pkw_input (rgl_input_tail LP)).
+Proof.
+  unfold g_input_object_type_definition, rgl_named_def. apply rl_sim_node.
+  apply rl_sim_desc_kw_rest; [reflexivity|apply rl_sim_input_rest].
+Qed.
+
+(* schema: Description? schema Directives? { RootOperationTypeDefinition+ } *)
+Lemma rl_sim_schema_definition f :
+  rl_sim (rl_desc_kw pkw_schema) (g_schema_definition f)
+    (rg_seq rg_desc_opt (rg_seq (rg_sat (rg_is_kw pkw_schema)) (rgl_schema_tail LP))).
+Proof.
+  unfold g_schema_definition, rgl_schema_tail. apply rl_sim_node.
+  apply rl_sim_desc_kw_rest; [reflexivity|].
+  apply rl_sim_bind; [apply (rl_sim_directives_opt f GConst)|intros _].
+  apply rl_sim_peek_else_err; [discriminate|apply rl_sim_rootops_block|].
+  unfold rgl_rootops. apply rl_requires_seq_sat.
+Qed.
